@@ -358,7 +358,7 @@ def run(ctx):
         core.run_sharded(ctx, __name__, 'shard_small', 1, (40,))
     else:
         n = getattr(ctx, 'shards_override', None) or 16
-        core.run_sharded(ctx, __name__, 'shard', n, (8000, 3000))
+        core.run_sharded(ctx, __name__, 'shard', n, (16000, 6000))
         core.run_sharded(ctx, __name__, 'shard_small', n, (1,))
         ctx.exhaustive['small-grammar'] = True
 
